@@ -376,7 +376,10 @@ fn units(words: &[String]) -> Vec<UnitDesc> {
         }
     }
     // equal-cost neighbours so that every 16th unit gives balanced shards; still simplest first
-    out.sort_by_key(|u| (refs::chars(&u.word, u.g).len(), u.kinds.count_ones()));
+    // (cost grows with the characters of the word in the mode, its symbols (chain bound) and the kinds)
+    // within a cost class a fixed hash order, so that no shard always gets the same last symbols
+    let fnv = |u: &UnitDesc| u.word.bytes().chain([u.kinds as u8, u.g as u8]).fold(0xcbf29ce484222325u64, |h, b| (h ^ b as u64).wrapping_mul(0x100000001b3));
+    out.sort_by_key(|u| (refs::chars(&u.word, u.g).len(), refs::chars(&u.word, true).len(), u.kinds.count_ones(), fnv(u)));
     out
 }
 
